@@ -36,10 +36,17 @@ class Entry:
         self.started = self.ended = self.delivered = self.cancelled = self.failed = False
 
 
+def rng_priority(app):
+    return app.get('priority', 100)
+
+
 class Driver:
-    def __init__(self, mode='race'):
+    def __init__(self, mode='race', app=None):
         from checks.c05_world import TW
         self.mode = mode
+        self.app = app or {}     # application-side listeners: {'state': 'suspend'|None, 'bus': 'suspend'|'raise'|None, 'late': op index}
+        self.app_refs = []
+        self.nop = 0
         self.tw = TW(slots=10, connect_mode=mode, driven=False, nusers=3)
         tw = self.tw
         for n in tw.names:
@@ -132,7 +139,8 @@ class Driver:
         net.send_peer_messages = send
 
         def mt():
-            drv.log.append(('cycle', None, None))
+            # the cycle skips transfers whose state lock is held (repair F29): for those it is not an event of their machine
+            drv.log.append(('cycle', None, frozenset(id(t) for t in tm.transfers if t._state_lock.locked())))
             return orig_mt()
         tm.manage_transfers = mt
 
@@ -172,6 +180,8 @@ class Driver:
 
         class L:
             async def on_transfer_state_changed(self, transfer, old, new):
+                if drv.app.get('state') == 'suspend':     # an application listener that awaits something
+                    await asyncio.sleep(0)
                 e = drv._entry_of_current()
                 if e is None or e.transfer is not transfer:
                     return
@@ -236,7 +246,8 @@ class Driver:
             evs = list(user_events.get(i, []))
             for what, ti, k in self.log[pos:]:
                 if what == 'cycle':
-                    evs.append('Cycle')
+                    if id(t) not in (k or ()):
+                        evs.append('Cycle')
                 elif ti == i and what == 'peermsg':
                     evs.append('PeerMsg')
                 elif ti == i and k is not None:
@@ -247,9 +258,31 @@ class Driver:
             self.rows.setdefault(i, []).append((evs, self.snapshot(t)))
 
     # ---- operations ------------------------------------------------------------------------------
+    def register_app_listeners(self):
+        """Listeners an application registers on the event bus: they may suspend or raise (EventBus.emit awaits coroutine
+        listeners in priority order and logs exceptions)."""
+        how = self.app.get('bus')
+        if not how or self.app_refs:
+            return
+        from aioslsk.events import TransferAddedEvent, TransferRemovedEvent
+
+        async def slow(event):
+            await asyncio.sleep(0)
+            await asyncio.sleep(0)
+
+        async def bad(event):
+            raise RuntimeError('application listener failed')
+        fn = slow if how == 'suspend' else bad
+        self.app_refs.append(fn)
+        for ev in (TransferAddedEvent, TransferRemovedEvent):
+            self.tw.w.client.events.register(ev, fn, priority=rng_priority(self.app))
+
     def do(self, op):
         tw = self.tw
         kind = op[0]
+        if self.nop >= self.app.get('late', 0):
+            self.register_app_listeners()
+        self.nop += 1
         ue = {}
         pre_len = len(self.log)
         if kind == 'D' or kind == 'U':
@@ -574,8 +607,8 @@ class Driver:
         self.tw.close()
 
 
-def execute(mode, ops, window=True):
-    d = Driver(mode)
+def execute(mode, ops, window=True, app=None):
+    d = Driver(mode, app)
     try:
         for op in ops:
             d.do(op)
@@ -823,7 +856,8 @@ def run(run: Run):
                     'interleave with a running stop call are explored by the harness only',
                     'peer-initiated negotiations (PeerTransferRequest -> initialize-download) are modelled (PeerMsg) but not driven by the harness']
     run.assumptions += ['users of the scenario are not OFFLINE; upload slots are not the limiting factor (limit 10, one upload per user)']
-    run.prove(['tr_prio'])
+    proved = run.prove(['tr_prio'])
+    boost = 1 if proved else 3      # a broken tie triggers the longer directed search
 
     # stored witnesses first (deterministic KNOWN-FINDING lines)
     stored = {K_RQ: W_RQ, K_TR: W_TR, K_RACE: W_RACE, K_LOCK: W_LOCK, K_RMFIN: W_RMFIN}
@@ -843,43 +877,49 @@ def run(run: Run):
         for k, text in viol:
             run.add_finding(Finding(k, WHAT.get(k, text), wit, observed=text, expected='no activity after the call returned; one task per slot'))
 
-    for name, mode, ops in core_scenarios():
+    core = [(n, m, o, None) for n, m, o in core_scenarios()]
+    core += [(n + '+suspending-listeners', m, o, {'bus': 'suspend', 'state': 'suspend', 'late': 1}) for n, m, o in core_scenarios()[::4]]
+    for name, mode, ops, app in core:
         try:
-            rows, viol, ups = execute(mode, ops)
+            rows, viol, ups = execute(mode, ops, app=app)
         except Exception as e:
             run.add_broken('correspondence:C06 core scenario crashed', f'{name}: {type(e).__name__}: {e}')
             continue
         run.case({'core': name}, nontrivial=True, kind='core')
         for ti, r in rows.items():
-            cases.append((ups[ti], r, {'mode': mode, 'ops': ops}))
+            cases.append((ups[ti], r, {'mode': mode, 'ops': ops, 'app': app}))
         for k, text in viol:
-            run.add_finding(Finding(k, WHAT.get(k, text), {'mode': mode, 'ops': ops}, observed=text,
+            run.add_finding(Finding(k, WHAT.get(k, text), {'mode': mode, 'ops': ops, 'app': app}, observed=text,
                                     expected='no activity after the call returned; one task per slot, held by the slot'))
 
-    n = 90 if run.tier == "quick" else 450
+    n = (90 if run.tier == "quick" else 450) * boost
     seen_new = set()
     for i in range(n):
         ops = gen_ops(run.rng)
         mode = run.rng.choice(['race', 'fallback', 'fallback'])
+        app = None
+        if run.rng.random() < 0.3:
+            app = {'bus': run.rng.choice(['suspend', 'raise', None]), 'state': run.rng.choice([None, 'suspend']), 'late': run.rng.randrange(0, 4),
+                   'priority': run.rng.choice([1, 100, 1000])}
         try:
-            rows, viol, ups = execute(mode, ops)
+            rows, viol, ups = execute(mode, ops, app=app)
         except Exception as e:
             run.add_broken('correspondence:C06 scenario crashed', f'{type(e).__name__}: {e} mode={mode} ops={ops}')
             break
         stops_live = any(o[0] in ('A', 'P', 'X', 'AI') for o in ops)
-        run.case({'mode': mode, 'ops': ops}, nontrivial=stops_live and any(s[2] + s[3] > 0 for r in rows.values() for _, s in r),
+        run.case({'mode': mode, 'ops': ops, 'app': app}, nontrivial=stops_live and any(s[2] + s[3] > 0 for r in rows.values() for _, s in r),
                  kind=mode)
         run.count('ops', len(ops))
         run.count('stops', sum(1 for o in ops if o[0] in ('A', 'P', 'X')))
         for ti, r in rows.items():
-            cases.append((ups[ti], r, {'mode': mode, 'ops': ops}))
+            cases.append((ups[ti], r, {'mode': mode, 'ops': ops, 'app': app}))
         for k, text in viol:
             if k in (K_RQ, K_TR, K_RACE, K_LOCK, K_RMFIN):
-                run.add_finding(Finding(k, WHAT[k], {'mode': mode, 'ops': ops}, observed=text))
+                run.add_finding(Finding(k, WHAT[k], {'mode': mode, 'ops': ops, 'app': app}, observed=text))
             elif k not in seen_new:
                 seen_new.add(k)
-                small = shrink(mode, ops, k)
-                run.add_finding(Finding(k, text, {'mode': mode, 'ops': small}, observed=text,
+                small = shrink(mode, ops, k, app)
+                run.add_finding(Finding(k, text, {'mode': mode, 'ops': small, 'app': app}, observed=text,
                                         expected='no activity after the call returned; one task per slot, held by the slot'))
 
     try:
@@ -894,10 +934,10 @@ def run(run: Run):
         run.add_broken(e.obligation, e.detail)
 
 
-def shrink(mode, ops, key):
+def shrink(mode, ops, key, app=None):
     def fails(cand):
         try:
-            _, viol, _ = execute(mode, cand)
+            _, viol, _ = execute(mode, cand, app=app)
         except Exception:
             return False
         return any(k == key for k, _ in viol)
@@ -909,7 +949,7 @@ def shrink(mode, ops, key):
 
 def replay(rep) -> int:
     w = rep['witness']
-    rows, viol, ups = execute(w['mode'], w['ops'])
+    rows, viol, ups = execute(w['mode'], w['ops'], app=w.get('app'))
     print('scenario:', w)
     for i, r in rows.items():
         print(f'transfer {i} ({"upload" if ups[i] else "download"}):')
